@@ -64,6 +64,10 @@ pub fn install_dispatcher() {
     INSTALL.call_once(|| {
         let default = std::panic::take_hook();
         std::panic::set_hook(Box::new(move |info| {
+            if info.payload().is::<crate::sched::StopRun>() {
+                // the scheduler ending a simulated process: not a panic of the simulated program
+                return;
+            }
             if !rt::in_run() {
                 default(info);
                 return;
